@@ -46,6 +46,7 @@ func Start(sim *Sim, mode string, pollMs uint) *Harness {
 	if mode == "bsc" {
 		h.Chain, h.WaitConf = vaa.ChainIDBSC, true
 	}
+	sim.WithLock(func() { sim.FinalizedMode = mode != "bsc" })
 	p := pollMs
 	h.W = ethereum.NewEthWatcher(sim.URL(), sim.Contract, mode, "evm-verif", h.Chain, h.msgC, nil, h.ObsvReqC, false, &p, h.WaitConf)
 	ctx, cancel := context.WithCancel(context.Background())
